@@ -286,7 +286,7 @@ func (w *verifC25World) finish() {
 		w.svc.batcher.Close() // Stop leaves the batcher's goroutine behind
 		w.svc = nil
 	}
-	w.settle()
+	verifSettle()
 	if !verifSymbolic() {
 		os.RemoveAll(w.dir)
 	}
@@ -653,7 +653,7 @@ func VerifC25bSingleGroup() {
 func VerifC25bLeadership() {
 	steps := 4
 	if verifTier() == 1 {
-		steps = 5
+		steps = 6
 	}
 	verifC25History(1+verifChoice("batchSz", 2), steps, false,
 		[]int{vC25Feed, vC25FeedMore, vC25Leader, vC25FailNext, vC25ClusterHWM, vC25TickHWM})
